@@ -34,7 +34,7 @@ CLAIMED = {
          "quick: <=3 segments of size <=2 over codomains <=3 (4 segments over codomains <=2 for the one-argument operations), re-indexing maps of length <=4; thorough: <=5 segments of size <=3", "DESIGN.md §4 C08"),
  'C09': ("explicit-state exploration: exhaustive inputs (all pending-pair lists) + breadth-first search over unify/quotient/new_node histories with exact-state deduplication + live-object history replay",
          "Every lax (open) hypergraph of the universes with every list of up to 3 pending pairs is quotiented by the real code (on the open hypergraph and on the bare hypergraph), then again; success/failure, the returned map (as a partition), every rewritten reference, the cleared pending list and - on failure - every public field are compared with the reference. Interleavings of unify/quotient/new_node are explored breadth-first to depth 8-12 and replayed on one live object.",
-         "<=4-5 nodes, <=3 pending pairs; numbering of merged nodes is free", "DESIGN.md §4 C09"),
+         "<=4-5 nodes, <=3 pending pairs (4 pairs on exactly 4 nodes; thorough 5 on 5); labels u8 and labels whose equality ignores a tag; numbering of merged nodes is free", "DESIGN.md §4 C09"),
  'C10': ("bounded exhaustive enumeration; real to_strict/from_strict and lax operations vs strict operations, compared by isomorphism / exact data",
          "Round trips strict->lax->strict and lax->strict->lax are compared as exact data on every diagram; for every ordered pair of label-consistent lax diagrams with pending unifications compose (defined iff types match), lax_compose (iff arities match) and tensor are strictified by the real to_strict and compared up to isomorphism with the strict operation on strictified arguments; tensor_assign, append and coproduct_assign are compared field for field with the pure forms; identity, twist, singleton, spider and dagger likewise.",
          "<=2-3 nodes, <=1-2 hyperedges, <=1-2 pending pairs", "DESIGN.md §4 C10"),
@@ -78,8 +78,10 @@ for p in props:
     pid = p['id']
     if pid in CLAIMED:
         tech, text, note, ref = CLAIMED[pid]
+        if pid in ("C15", "C16", "C17"):
+            tech += "; plus dependency chains of 30 000 / 100 000 operations, each executed in a child process on a 2 MiB thread stack (a call that does not come back is a violation of the returns-for-every-diagram clause)"
         if pid in STRUCT:
-            tech += "; plus completely enumerated structured families of larger inputs (size parameters up to 129 / 513, depths, multiplicities, magnitudes near powers of two, wide hyperedges and interfaces, many labels, every listing order of a 3-4 wire boundary, un-quotiented presentations of lax diagrams)"
+            tech += "; plus completely enumerated structured families of larger inputs (size parameters up to 129 / 513, depths, multiplicities, magnitudes near powers of two, wide hyperedges and interfaces, many labels, every listing order of a 3-4 wire boundary, un-quotiented presentations of lax diagrams, every leg 4 -> 4, union-find builds followed by every redundant pair, operations numbered out of order)"
             text += " In addition to the exhaustive small universes, parametrised families of larger inputs (DESIGN.md §10.2, §10.6, §10.12) are enumerated completely for every size parameter up to a stated bound, because realistic faults exist that no input below the small-scope bound can show."
         checks.append({
             "property_id": pid,
